@@ -57,6 +57,11 @@ CHECKS = {
             "Every pair of 25 site kinds on one physical line, in six line styles and under several approved sets, is rewritten by the real code; call parentheses are located with CPython's ast (no asttokens) and everything outside them must be byte-identical (or AST-identical when the file is re-formatted).",
             "Site kinds/styles of mc/checks/c03.py; black 26.5.1 decides clean-ness on the harness side; one known finding (CRLF/CR normalised to LF) with a residual test.",
             "DESIGN.md 5/C03"),
+    "C17": ("exploration",
+            "bounded-exhaustive enumeration of mutation schedules (shape x operation x all action sequences over {compare, mutation kinds}) against an alias-free deep-copying recorder run on the same generated module",
+            "Every schedule of comparisons and mutations up to the length bound is executed by the real code and by an alias-free recorder; the value evaluated from the rewritten file must be the comparison-time value. Non-copyable values must raise UsageError and record nothing.",
+            "9 mutable shapes incl. tuples/namedtuples holding lists; sequences of length <= 3 (quick) / 4 (thorough); create and fix-from-previous modes.",
+            "DESIGN.md 5/C17"),
 }
 
 NOT_APPLICABLE = {
